@@ -85,6 +85,7 @@ func registerModels(e *Engine) {
 	registerTime(e)
 	registerStrconv(e)
 	registerDist(e)
+	registerFS(e)
 }
 
 // ---------- verifrt intrinsics ----------
